@@ -254,19 +254,21 @@ theorem walkLoopB_no_idle_has (e : Env) (wf : WF e) (t r : Nat) (fuel : Nat) (σ
 /-- **one backward task, in terms of the ledger**: a successful `scheduleTask` of a backward effort task with the single selected
     resource `r` leaves, between ANY slot `L` it is booked in and the slot its walk started in, no working slot of `r` without an
     entry — unless a limit refuses that slot -/
-theorem scheduleTaskB_no_idle_interval (e : Env) (wf : WF e) (σ : St) (t r : Nat)
-    (hinv : Inv e σ) (hs : Solid e σ) (hel : Elig e t r) (hf : (σ.tst t).forward = false)
+theorem scheduleTaskB_no_idle_interval_sel (e : Env) (wf : WF e) (σ : St) (t r : Nat)
+    (hinv : Inv e σ) (hs : Solid e σ) (hlf : (e.taskD t).leaf = true) (hal : (e.taskD t).hasAlloc = true)
+    (hnm : (e.taskD t).milestone = false) (hpos : 0 < (e.taskD t).effort)
+    (hsel1 : selectBest e (σ.setT t (σ.tst t)) (e.taskD t).alloc (e.taskD t).alt (e.taskD t).effort (initCursor e σ t).1 = [r])
+    (hf : (σ.tst t).forward = false)
     (hnd : (σ.tst t).done = false) (hclean : ∀ i, usageOf (σ.led.get r i).usage t = none)
     (hleaf : (e.resD r).leaf = true)
     (hok : (scheduleTask e σ t).2 = true) :
     ∀ L, usageOf ((scheduleTask e σ t).1.led.get r L).usage t ≠ none →
       ∀ i, L ≤ i → i ≤ (initCursor e σ t).1 → e.onShift r i = true → e.leaveMark r i = false →
         Has r i (scheduleTask e σ t).1 ∨ Exhausted e (scheduleTask e σ t).1 t r i := by
-  have hpos := hel.effort
   have hpc : preStartCursor e σ t (initCursor e σ t).1 = (initCursor e σ t).1 := by
-    unfold preStartCursor; simp [hel.alloc]
+    unfold preStartCursor; simp [hal]
   have hpt : preStartT e σ t (initCursor e σ t).1 = σ.tst t := by
-    unfold preStartT; simp [hel.alloc]
+    unfold preStartT; simp [hal]
   have hoff := initCursor_off e σ t wf
   unfold scheduleTask at hok ⊢
   simp only [hnd, Bool.false_eq_true, if_false, hpc, hpt, hf] at hok ⊢
@@ -286,7 +288,7 @@ theorem scheduleTaskB_no_idle_interval (e : Env) (wf : WF e) (σ : St) (t r : Na
       ⟨fun i _ => hclean i, fun i hi => absurd hi List.not_mem_nil,
         by show (0 : Rat) = sumOver _ r t [] / 3600 * (e.resD r).eff; simp only [sumOver]; grind, List.nodup_nil⟩
     have hsel0 : selectedOf e (σ.setT t (σ.tst t)) t { cur := (initCursor e σ t).1, offset := (initCursor e σ t).2 } = [r] := by
-      unfold selectedOf; exact hel.sel _ _
+      unfold selectedOf; exact hsel1
     by_cases hfin : (walkLoop e t false (e.size.toNat + 3) (σ.setT t (σ.tst t))
         { cur := (initCursor e σ t).1, offset := (initCursor e σ t).2 }).2.2 = true
     · simp only [hfin, Bool.not_true, Bool.false_eq_true, if_false] at hok ⊢
@@ -316,7 +318,7 @@ theorem scheduleTaskB_no_idle_interval (e : Env) (wf : WF e) (σ : St) (t r : Na
       have hcur : ((walkVisitsB e t (e.size.toNat + 3) (σ.setT t (σ.tst t))
           { cur := (initCursor e σ t).1, offset := (initCursor e σ t).2 })[((initCursor e σ t).1 - i).toNat]).2.cur = i := by
         rw [hjc]; omega
-      have := walkLoopB_no_idle_has e wf t r _ _ _ [] h0 hs0 hel.leaf hw hin hel.alloc hel.nomile hsel0 hpos hpos hacc hfin
+      have := walkLoopB_no_idle_has e wf t r _ _ _ [] h0 hs0 hlf hw hin hal hnm hsel0 hpos hpos hacc hfin
         hleaf _ (List.getElem_mem hj) (by rw [hcur]; exact hon) (by rw [hcur]; exact hnl)
       rw [hcur] at this
       exact this
@@ -324,6 +326,18 @@ theorem scheduleTaskB_no_idle_interval (e : Env) (wf : WF e) (σ : St) (t r : Na
         { cur := (initCursor e σ t).1, offset := (initCursor e σ t).2 }).2.2 = false := by simpa using hfin
       simp only [hfin', Bool.not_false, if_true] at hok
       exact Bool.noConfusion hok
+
+/-- the same for a task whose selection is `[r]` in every state -/
+theorem scheduleTaskB_no_idle_interval (e : Env) (wf : WF e) (σ : St) (t r : Nat)
+    (hinv : Inv e σ) (hs : Solid e σ) (hel : Elig e t r) (hf : (σ.tst t).forward = false)
+    (hnd : (σ.tst t).done = false) (hclean : ∀ i, usageOf (σ.led.get r i).usage t = none)
+    (hleaf : (e.resD r).leaf = true)
+    (hok : (scheduleTask e σ t).2 = true) :
+    ∀ L, usageOf ((scheduleTask e σ t).1.led.get r L).usage t ≠ none →
+      ∀ i, L ≤ i → i ≤ (initCursor e σ t).1 → e.onShift r i = true → e.leaveMark r i = false →
+        Has r i (scheduleTask e σ t).1 ∨ Exhausted e (scheduleTask e σ t).1 t r i :=
+  scheduleTaskB_no_idle_interval_sel e wf σ t r hinv hs hel.leaf hel.alloc hel.nomile hel.effort (hel.sel _ _) hf hnd hclean
+    hleaf hok
 
 /-- `backToWork` only skips slots in which `p` is false -/
 theorem backToWork_skips (e : Env) (p : Int → Bool) (fuel : Nat) (c0 : Int) :
